@@ -113,8 +113,9 @@ theorem ltcred_forgery (E : Env) (secret u' realm p' : String) (now : Int) (uid 
     · cases hh
     · cases hh; exact ⟨hsig, rfl⟩
 
-/-- REST form: the window is decided by the text before the first colon, the user id is the text between
-    the first and the second colon, and the key is again that of the full username -/
+/-- REST form: the window is decided by the text before the first colon, the user id is everything behind
+    it (so user ids that differ behind a second colon stay different users, F53), and the key is again that of the
+    full username -/
 theorem ltcred_rest (E : Env) (secret user realm : String) (d t0 now : Int)
     (h1 : -9223372036854775808 ≤ t0 + d) (h2 : t0 + d < 9223372036854775808)
     (hsplit : restFields (genREST E secret user d t0).1 = (fmt (t0 + d), user)) :
@@ -128,5 +129,8 @@ theorem ltcred_rest (E : Env) (secret user realm : String) (d t0 now : Int)
 example : atoi (fmt 1700000000) = some 1700000000 := by decide
 example : atoi (fmt (-3)) = some (-3) := by decide
 example : atoi "17000x0000" = none := by decide
+
+/-! (user ids that contain colons — "bob:x" — are kept whole: H7 draws such names and compares the returned user id with the
+    model's `restFields`; `String.splitOn` does not reduce in the kernel, so there is no `decide` example here) -/
 
 end Turn.C17
